@@ -1317,6 +1317,12 @@ class FnCtx:
                     env['$range'] = rv
             if ins['op'] == 'Phi' and ins.get('comment') in ('rangeint.iter',):
                 env['$i'] = mathint(st.regs[ins['name']].term)
+            if ins['op'] == 'Next' and (ins.get('iter') or {}).get('name'):
+                gk = self.instrs.visited_key(fr, ins['iter']['name'])
+                it = st.regs.get(ins['iter']['name'])
+                if gk in st.ghost and it is not None and it.bindings and self.types.kind(it.bindings[0].t) == 'map':
+                    kt = self.types.desc(it.bindings[0].t)['key']
+                    env['$visited'] = Val('$set', {(): st.ghost[gk]}, bindings=[kt])
         return env
 
     def range_operand(self, st, fr, h, phi):
